@@ -96,6 +96,523 @@ def gen_c01(tier, rng):
     return cases, dist
 
 
+
+def case(op, *args):
+    return op + '\t' + '\t'.join(hx(a) if isinstance(a, (bytes, bytearray)) else a for a in args)
+
+
+def vlist(items):
+    return '[' + ' '.join(items) + ']'
+
+
+def is_utf8(b):
+    try:
+        b.decode('utf-8'); return True
+    except UnicodeDecodeError:
+        return False
+
+
+BYTE_FAMS = {'u': ['u', 'tu'], 'w': ['w', 'tw']}
+UTF8_FAMS = {'u': ['u8', 't8u'], 'w': ['w8', 't8w']}
+
+
+def fams_for(enc, p_list, rng, all_fams=False):
+    """which API families a case is sent to: always the byte family; the UTF-8 / typed families on a share of the cases"""
+    fams = [enc]
+    ok8 = all(is_utf8(p) for p in p_list)
+    if all_fams:
+        fams += [BYTE_FAMS[enc][1]] + (UTF8_FAMS[enc] if ok8 else [])
+    else:
+        r = rng.random()
+        if r < 0.15:
+            fams.append(BYTE_FAMS[enc][1])
+        elif r < 0.40 and ok8:
+            fams.append(rng.choice(UTF8_FAMS[enc]))
+    return fams
+
+
+def upaths_exh(k6, k4):
+    seen = set()
+    for s in strings_upto(UALPHA6, k6):
+        seen.add(s); yield s
+    for s in strings_upto(UALPHA4[:3], k4):
+        if s not in seen:
+            yield s
+
+
+def wpaths_exh(k7, kseed):
+    seen = set()
+    for s in strings_upto(WALPHA7, k7):
+        seen.add(s); yield s
+    for s in wpaths_seeded(kseed):
+        if s not in seen:
+            seen.add(s); yield s
+
+
+def unary_paths(enc, tier, rng, dist, scale=1.0):
+    """bounded-exhaustive + structured random + malformed + UTF-8 multi-byte inputs for one encoding"""
+    out = []
+    if enc == 'u':
+        k6, k4 = (5, 8) if tier == 'quick' else (6, 10)
+        for s in upaths_exh(k6, k4):
+            out.append((s, 'exh'))
+    else:
+        k7, ks = (4, 4) if tier == 'quick' else (5, 5)
+        for s in wpaths_exh(k7, ks):
+            out.append((s, 'exh'))
+    nr = int((20000 if tier == 'quick' else 200000) * scale)
+    for _ in range(nr):
+        out.append(((random_unix_path(rng, 7) if enc == 'u' else random_win_path(rng, 6)), 'random'))
+    for _ in range(nr // 8):
+        out.append((random_bytes(rng, 14), 'malformed'))
+    for s in utf8_strings_upto(3 if tier == 'quick' else 4):
+        out.append((s, 'utf8exh'))
+    for _ in range(nr // 4):
+        out.append((random_utf8_path(rng, enc == 'w'), 'utf8random'))
+    for s, st in out:
+        hist(dist.setdefault('stream', {}), st)
+        hist(dist.setdefault('len', {}), min(len(s), 32))
+    return out
+
+
+def seg_count(enc, s):
+    return len(usegs(s, b'/' if enc == 'u' else b'/\\'))
+
+
+def gen_c03(tier, rng):
+    cases, dist = [], {}
+    for enc in ('u', 'w'):
+        for s, st in unary_paths(enc, tier, rng, dist, 0.5):
+            n = seg_count(enc, s) + 2
+            hist(dist.setdefault('ncomp', {}), min(n - 2, 12))
+            if st == 'exh' and n <= 5:
+                scs = list(scheds(n))
+                if len(scs) > 8:
+                    scs = rng.sample(scs, 8) + [bytes([0] * n), bytes([1] * n)]
+            else:
+                scs = [bytes(rng.randint(0, 1) for _ in range(n + 1)), bytes([0] * (n + 1)), bytes([1] * (n + 1))]
+            for sc in scs:
+                for fam in fams_for(enc, [s], rng):
+                    cases.append(case('c03.' + fam, s, sc))
+    return cases, dist
+
+
+def gen_unary(op, encs=('u', 'w'), scale=1.0, fam_filter=None):
+    def g(tier, rng):
+        cases, dist = [], {}
+        for enc in encs:
+            for s, st in unary_paths(enc, tier, rng, dist, scale):
+                for fam in fams_for(enc, [s], rng):
+                    if fam_filter and not fam_filter(fam):
+                        continue
+                    cases.append(case(op + '.' + fam, s))
+        return cases, dist
+    return g
+
+
+def short_args(enc, k):
+    alpha = UALPHA4 if enc == 'u' else WALPHA4 + [0x3a, 0x43]
+    return list(strings_upto(alpha, k))
+
+
+def gen_pairs(op, encs=('u', 'w'), second='paths', scale=1.0, fam_filter=None, extra_second=None):
+    """pairs (a, b): a from the structured base pool + random, b exhaustive short + random"""
+    def g(tier, rng):
+        cases, dist = [], {}
+        for enc in encs:
+            bases = base_pool(enc == 'w', rich=(tier != 'quick'))
+            k = 3 if tier == 'quick' else 4
+            if enc == 'u':
+                k += 1
+            bs = short_args(enc, k)
+            if second == 'names':
+                bs = [x for x in bs if len(x) <= 3] + [b'x', b'y.z', b'..', b'.', b'', b'a/b', b'a\\b', b'n.tar.gz', b'\xc3\xa9.t', b'a:b', b'C:']
+            if extra_second:
+                bs = bs + extra_second
+            hist(dist.setdefault('bases', {}), enc + str(len(bases)))
+            budget = int((400000 if tier == 'quick' else 3000000) * scale / len(encs))
+            pairs = []
+            if len(bases) * len(bs) <= budget:
+                pairs = [(a, b) for a in bases for b in bs]
+            else:
+                for a in bases:
+                    for b in rng.sample(bs, max(1, budget // len(bases))):
+                        pairs.append((a, b))
+            nr = int((30000 if tier == 'quick' else 300000) * scale)
+            mk = (lambda: random_unix_path(rng, 5)) if enc == 'u' else (lambda: random_win_path(rng, 4))
+            pool = [mk() for _ in range(max(50, nr // 20))]
+            for _ in range(nr):
+                a = rng.choice(pool) if rng.random() < 0.5 else mk()
+                r = rng.random()
+                if r < 0.3:
+                    b = rng.choice(bs)
+                elif r < 0.5:
+                    # related spelling of a (prefix / re-spelling)
+                    b = respell(a, enc, rng)
+                else:
+                    b = rng.choice(pool) if rng.random() < 0.5 else mk()
+                pairs.append((a, b))
+            for _ in range(nr // 6):
+                pairs.append((random_utf8_path(rng, enc == 'w'), random_utf8_path(rng, enc == 'w', 3)))
+            for a, b in pairs:
+                hist(dist.setdefault('lenA', {}), min(len(a), 24)); hist(dist.setdefault('lenB', {}), min(len(b), 24))
+                for fam in fams_for(enc, [a, b], rng):
+                    if fam_filter and not fam_filter(fam):
+                        continue
+                    cases.append(case(op + '.' + fam, a, b))
+        return cases, dist
+    return g
+
+
+def respell(a, enc, rng):
+    """a different spelling (or a leading / trailing part) of the same path"""
+    b = bytearray(a)
+    r = rng.random()
+    if r < 0.25 and len(b) > 0:
+        cut = rng.randint(0, len(b))
+        return bytes(b[:cut])
+    if r < 0.4 and len(b) > 0:
+        cut = rng.randint(0, len(b))
+        return bytes(b[cut:])
+    out = bytearray()
+    for ch in b:
+        if enc == 'w' and ch in (0x5c, 0x2f):
+            out.append(rng.choice([0x5c, 0x2f]))
+            if rng.random() < 0.2:
+                out.append(rng.choice([0x5c, 0x2f]))
+            if rng.random() < 0.1:
+                out += b'.' + bytes([rng.choice([0x5c, 0x2f])])
+        elif enc == 'u' and ch == 0x2f:
+            out += b'/' * rng.choice([1, 1, 2]) + (b'./' if rng.random() < 0.15 else b'')
+        elif enc == 'w' and chr(ch).isalpha() and rng.random() < 0.3:
+            out.append(ch ^ 0x20)
+        else:
+            out.append(ch)
+    if rng.random() < 0.3:
+        out += rng.choice([b'/', b'/.', b'\\'] if enc == 'w' else [b'/', b'/.', b'//'])
+    return bytes(out)
+
+
+HOPS = ['push', 'push', 'push', 'pop', 'sfn', 'sext', 'clear', 'extend', 'collect', 'join', 'wfn', 'pushc', 'wext', 'norm']
+HARGS_U = [b'', b'a', b'/', b'/b', b'..', b'.', b'a/b', b'c.d', b'x/', b'./y', b'.e', b'f.', b'a.b.c', b'//', b'\xc3\xa9']
+HARGS_W = [b'', b'a', b'\\', b'\\b', b'..', b'.', b'a\\b', b'c.d', b'x/', b'C:', b'C:z', b'D:\\q', b'/r', b'\\\\s\\sh', b'./y', b'a.b.c',
+           b'\\\\?\\C:\\v', b'f.']
+HINIT_U = [b'', b'/', b'a', b'/a/b', b'a/b/', b'a.b', b'/x.y/z.w', b'..', b'a/..', b'./a', b'a//b/.']
+HINIT_W = [b'', b'\\', b'a', b'C:', b'C:\\', b'C:a', b'\\\\s\\sh', b'\\\\s\\sh\\a', b'\\\\?\\C:\\a', b'\\\\?\\pic', b'a/b\\', b'/a.b',
+           b'\\\\.\\dev', b'\\\\?\\UNC\\s\\sh\\x.y', b'c:x.y/']
+
+
+def hop_val(op, args, rng, std_ok):
+    if op in ('pop', 'clear', 'norm'):
+        return '(%s)' % op
+    if op in ('extend', 'collect'):
+        n = rng.randint(0, 3)
+        return '(%s %s)' % (op, vlist([hx(rng.choice(args)) for _ in range(n)]))
+    a = rng.choice(args)
+    if op in ('sext', 'wext') and std_ok:
+        while b'/' in a:       # std panics by contract on a separator in the extension
+            a = rng.choice(args)
+    return '(%s %s)' % (op, hx(a))
+
+
+def gen_hist(enc, fams, tier, rng, dist, ops=None, std=False, n_random=None, maxlen=None):
+    cases = []
+    args = HARGS_U if enc == 'u' else HARGS_W
+    inits = HINIT_U if enc == 'u' else HINIT_W
+    ops = ops or HOPS
+    # exhaustive short histories over a reduced op/arg set
+    depth = 2 if tier == 'quick' else 3
+    small_ops = [o for o in dict.fromkeys(ops)]
+    small_args = args[:8]
+    singles = []
+    for o in small_ops:
+        if o in ('pop', 'clear', 'norm'):
+            singles.append('(%s)' % o)
+        elif o in ('extend', 'collect'):
+            singles.append('(%s %s)' % (o, vlist([hx(small_args[1]), hx(small_args[3])])))
+        else:
+            for a in small_args:
+                if std and o in ('sext', 'wext') and b'/' in a:
+                    continue
+                singles.append('(%s %s)' % (o, hx(a)))
+    for init in inits:
+        for h in itertools.product(singles, repeat=depth):
+            for fam in fams:
+                cases.append('hist.%s\t%s\t%s' % (fam, hx(init), vlist(h)))
+    nr = n_random if n_random is not None else (20000 if tier == 'quick' else 200000)
+    ml = maxlen or (12 if tier == 'quick' else 40)
+    for _ in range(nr):
+        init = rng.choice(inits) if rng.random() < 0.7 else (random_unix_path(rng, 4) if enc == 'u' else random_win_path(rng, 3))
+        n = rng.randint(1, ml)
+        h = [hop_val(rng.choice(ops), args, rng, std) for _ in range(n)]
+        hist(dist.setdefault('histlen', {}), n)
+        for fam in fams:
+            cases.append('hist.%s\t%s\t%s' % (fam, hx(init), vlist(h)))
+    return cases
+
+
+def sweep256(enc):
+    """every byte value in the positions where a single byte is classified"""
+    out = []
+    for v in range(256):
+        x = bytes([v])
+        out += [x, x + b':', x + b':\\a', b'a' + x, b'a' + x + b'b', x + b'b', b'/' + x, b'd/' + x + b'/e', b'\\\\?\\' + x + b':\\q',
+                b'\\\\?\\n' + x + b'm\\q', b'\\\\s\\h' + x, x + x + b'?' + x + b'a', b'\\' + x + b'?\\a', b'\\\\' + x + b'\\a', b'\\\\?' + x + b'a']
+    return out
+
+
+def gen_c02(tier, rng):
+    cases, dist = gen_unary('c02', encs=('w',), fam_filter=lambda f: f in ('w', 'w8'))(tier, rng)
+    for s in sweep256('w'):
+        cases.append(case('c02.w', s))
+        if is_utf8(s):
+            cases.append(case('c02.w8', s))
+    hist(dist.setdefault('stream', {}), 'sweep256')
+    return cases, dist
+
+
+def gen_c17(tier, rng):
+    cases, dist = gen_unary('c17', scale=0.5)(tier, rng)
+    for enc in ('u', 'w'):
+        for s in sweep256(enc):
+            for fam in fams_for(enc, [s], rng, all_fams=True):
+                cases.append(case('c17.' + fam, s))
+    return cases, dist
+
+
+def gen_c06(tier, rng):
+    cases, dist = gen_pairs('c06', encs=('u',), fam_filter=lambda f: f == 'u')(tier, rng)
+    return [c.replace('c06.u\t', 'pair.c06\t', 1) for c in cases], dist
+
+
+STD_HOPS = [o for o in HOPS if o not in ('pushc', 'norm')]
+
+
+def gen_c07(tier, rng):
+    dist = {}
+    cases = gen_hist('u', ['x'], tier, rng, dist, ops=STD_HOPS, std=True)
+    return [c.replace('hist.x\t', 'pair.hist\t', 1) for c in cases], dist
+
+
+def gen_c08(tier, rng):
+    cases, dist = gen_pairs('c08', encs=('w',))(tier, rng)
+    # sequences of pushes starting from an empty buffer
+    args = HARGS_W
+    n = 20000 if tier == 'quick' else 200000
+    for _ in range(n):
+        k = rng.randint(1, 5)
+        h = ['(push %s)' % hx(rng.choice(args) if rng.random() < 0.7 else random_win_path(rng, 2)) for _ in range(k)]
+        fam = rng.choice(['w', 'w', 'w', 'tw'])
+        cases.append('hist.%s\tx\t%s' % (fam, vlist(h)))
+    return cases, dist
+
+
+EXTS = [b'', b'rs', b'tar.gz', b'.', b'x.', b'.x', b'e' * 70, '\u00e9\u00e9'.encode(), b'a b', b'..']
+
+
+def gen_c13(tier, rng):
+    cases, dist = gen_pairs('c13', second='names', scale=0.6, extra_second=EXTS)(tier, rng)
+    # the Unix byte family next to std::path::PathBuf::set_extension (no separator in the extension: std panics by contract)
+    ups = list(strings_upto(UALPHA4, 5 if tier == 'quick' else 6))
+    for p in ups:
+        for e in (b'', b'x', b'tar.gz') if len(p) > 3 else EXTS:
+            if b'/' not in e:
+                cases.append(case('pair.c13', p, e))
+    for _ in range(20000 if tier == 'quick' else 200000):
+        p = random_unix_path(rng, 6)
+        e = rng.choice(EXTS + [b'y'])
+        cases.append(case('pair.c13', p, e))
+    # repeated application
+    for _ in range(5000 if tier == 'quick' else 50000):
+        enc = rng.choice(['u', 'w'])
+        p = random_unix_path(rng, 4) if enc == 'u' else random_win_path(rng, 3)
+        h = ['(sext %s)' % hx(rng.choice(EXTS)) for _ in range(rng.randint(2, 5))]
+        for fam in fams_for(enc, [p], rng):
+            cases.append('hist.%s\t%s\t%s' % (fam, hx(p), vlist(h)))
+    # UTF-8 multi-byte names next to dots and separators
+    for _ in range(20000 if tier == 'quick' else 100000):
+        enc = rng.choice(['u', 'w'])
+        p = random_utf8_path(rng, enc == 'w')
+        e = rng.choice(EXTS)
+        if is_utf8(e):
+            cases.append(case('c13.' + rng.choice(UTF8_FAMS[enc]), p, e))
+    return cases, dist
+
+
+def refamily(cases, rng, want):
+    """re-target generated cases at the UTF-8 / runtime-typed families (model answers stay the byte model's)"""
+    out = []
+    for c in cases:
+        parts = c.split('\t')
+        op = parts[0]
+        if '.' not in op:
+            continue
+        name, fam = op.split('.', 1)
+        if fam not in ('u', 'w') or name in ('c02', 'pair'):
+            if not (name == 'c02' and want == 'utf8' and fam == 'w'):
+                continue
+        blobs = re.findall(r'x([0-9a-f]*)', '\t'.join(parts[1:]))
+        if want == 'utf8':
+            if not all(is_utf8(bytes.fromhex(x)) for x in blobs):
+                continue
+            choices = UTF8_FAMS[fam] if name not in ('c02', 'c16') else [fam + '8']
+            if name == 'c16':
+                choices = [fam + '8', 't8' + fam]
+        else:
+            choices = [BYTE_FAMS[fam][1]] + ([UTF8_FAMS[fam][1]] if all(is_utf8(bytes.fromhex(x)) for x in blobs) else [])
+        parts[0] = name + '.' + rng.choice(choices)
+        out.append('\t'.join(parts))
+    return out
+
+
+MIX = None
+
+
+def mixed_cases(tier, rng, scale=0.25):
+    """a cross-section of every operation (byte families), used by C14 C15 C18 C20"""
+    cases = []
+    small = 'quick'
+    for pid, g in [('C03', gen_c03), ('C04', gen_pairs('c04', scale=scale)), ('C05', gen_pairs('c05', scale=scale)),
+                   ('C08', gen_pairs('c08', scale=scale)), ('C09', gen_unary('c09', scale=scale)),
+                   ('C10', gen_pairs('c10', scale=scale)), ('C11', gen_unary('c11', scale=scale)),
+                   ('C12', gen_pairs('c12', second='names', scale=scale)),
+                   ('C13', gen_pairs('c13', second='names', scale=scale, extra_second=EXTS)),
+                   ('C16', gen_unary('c16', scale=scale)), ('C17', gen_unary('c17', scale=scale)),
+                   ('C02', gen_unary('c02', encs=('w',), scale=scale, fam_filter=lambda f: f == 'w'))]:
+        cs, _ = g(small, rng)
+        cs = [c for c in cs if c.split('\t')[0].split('.')[1] in ('u', 'w')]
+        if tier == 'quick' and len(cs) > 60000:
+            cs = rng.sample(cs, 60000)
+        cases += cs
+    d = {}
+    for enc in ('u', 'w'):
+        for c in gen_hist(enc, [enc], small, rng, d, n_random=int(20000 * scale * 2)):
+            cases.append(c)
+    return cases
+
+
+def gen_c14(tier, rng):
+    base = mixed_cases(tier, rng)
+    cases = refamily(base, rng, 'utf8')
+    dist = {'ops': {}}
+    # UTF-8 multi-byte inputs through every operation
+    for enc in ('u', 'w'):
+        ps = list(utf8_strings_upto(3 if tier == 'quick' else 4))
+        ps += [random_utf8_path(rng, enc == 'w') for _ in range(10000 if tier == 'quick' else 100000)]
+        for p in ps:
+            q = rng.choice(ps)
+            f8 = enc + '8'
+            t8 = 't8' + enc
+            sc = bytes(rng.randint(0, 1) for _ in range(seg_count(enc, p) + 2))
+            n = rng.choice([b'x', '\u00e9.\u20ac'.encode(), b'', b'.', b'y.z'])
+            e = rng.choice([b'rs', b'', '\u00e9\u00e9'.encode(), b'e' * 40])
+            fam = rng.choice([f8, f8, t8])
+            cases += [case('c03.' + fam, p, sc), case('c09.' + fam, p), case('c04.' + fam, p, q), case('c05.' + fam, p, q),
+                      case('c10.' + fam, p, q), case('c11.' + fam, p), case('c12.' + fam, p, n), case('c13.' + fam, p, e),
+                      case('c16.' + fam, p), case('c17.' + fam, p), case('c14c', p)]
+            if enc == 'w':
+                cases.append(case('c02.w8', p))
+    # conversions between the byte and UTF-8 families on valid and invalid UTF-8
+    for s in strings_upto([0x00, 0x7f, 0x80, 0x8f, 0x90, 0x9f, 0xa0, 0xbf, 0xc0, 0xc1, 0xc2, 0xdf, 0xe0, 0xed, 0xef, 0xf0, 0xf4, 0xf5, 0xff], 3 if tier == 'quick' else 4):
+        cases.append(case('c14c', s))
+    for c in cases:
+        hist(dist['ops'], c.split('\t')[0])
+    return cases, dist
+
+
+def gen_c15(tier, rng):
+    base = mixed_cases(tier, rng)
+    cases = refamily(base, rng, 'typed')
+    dist = {'ops': {}}
+    for enc in ('u', 'w'):
+        for s, st in unary_paths(enc, tier, rng, {}, 0.3):
+            cases.append(case('c15d', s))
+    for s in sweep256('w'):
+        cases.append(case('c15d', s))
+    for c in cases:
+        hist(dist['ops'], c.split('\t')[0])
+    return cases, dist
+
+
+def long_inputs(rng, n):
+    shapes = [b'/' * n, b'.' * n, b'./' * (n // 2), b'../' * (n // 3), b'a/' * (n // 2), b'a' * n, b'/a' * (n // 2), b'\\' * n,
+              b'\\a' * (n // 2), b'a\\.\\' * (n // 4), b'C:' + b'\\x' * (n // 2), b'\\\\?\\C:' + b'\\y.' * (n // 3), b'\\\\s\\sh' + b'/..' * (n // 3),
+              b'//' + b'?' * n, b'\\\\?\\' + b'/' * n, b'\\\\?\\UNC\\' + b's' * n, b'a.' * (n // 2), b'/.' * (n // 2) + b'x', b'x' + b'/.' * (n // 2),
+              bytes(rng.randrange(256) for _ in range(n)), b'\xc3\xa9/' * (n // 3), b'\\\\.\\' + b'd' * n + b'\\' * 100]
+    return shapes
+
+
+def long_cases(rng, n):
+    cases = []
+    for s in long_inputs(rng, n):
+        for enc in ('u', 'w'):
+            sc = bytes(rng.randint(0, 1) for _ in range(64))
+            fams = [enc, 't' + enc] + ([enc + '8'] if is_utf8(s) else [])
+            for fam in fams:
+                cases += [case('c03.' + fam, s, sc), case('c09.' + fam, s), case('c11.' + fam, s), case('c12.' + fam, s, b'n'),
+                          case('c13.' + fam, s, b'e'), case('c17.' + fam, s), case('c05.' + fam, s, s[:-1]),
+                          case('c10.' + fam, s, s[:len(s) // 2]), case('c04.' + fam, b'base', s), case('c04.' + fam, s, b'x/../y'),
+                          case('c08.' + fam, s, b'tail')]
+                if fam in ('u', 'w', 'u8', 'w8'):
+                    cases.append(case('c16.' + fam, s))
+            cases.append(case('c02.w', s))
+    return cases
+
+
+def gen_c18_impl_only(tier, rng):
+    """very long inputs: run on the implementation only (the model cannot exhibit stack depth or time)"""
+    return long_cases(rng, 8000 if tier == "quick" else 40000)
+
+
+def gen_c18(tier, rng):
+    cases = mixed_cases(tier, rng, scale=0.15)
+    dist = {'ops': {}}
+    cases += long_cases(rng, 120 if tier == 'quick' else 400)
+    for s in strings_upto([0x5c, 0x2f, 0x2e, 0x3a, 0x3f, 0x61, 0x43, 0x55, 0x4e, 0x00, 0xe9], 4 if tier == 'quick' else 5):
+        cases.append(case('c02.w', s)); cases.append(case('c09.w', s)); cases.append(case('c09.u', s))
+    for c in cases:
+        hist(dist['ops'], c.split('\t')[0])
+    return cases, dist
+
+
+def gen_c19(tier, rng):
+    cases, dist = [], {}
+    bnd = [0x00, 0x7f, 0x80, 0x8f, 0x90, 0x9f, 0xa0, 0xbf, 0xc0, 0xc1, 0xc2, 0xdf, 0xe0, 0xed, 0xef, 0xf0, 0xf4, 0xf5, 0xff]
+    for s in strings_upto(bnd, 3 if tier == 'quick' else 4):
+        cases.append(case('c19', s))
+    for s in strings_upto([0x2f, 0x5c, 0x2e, 0x61, 0xc3, 0xa9, 0xe2, 0x82, 0xac, 0xf0], 4 if tier == 'quick' else 5):
+        cases.append(case('c19', s))
+    for _ in range(20000 if tier == 'quick' else 200000):
+        r = rng.random()
+        s = random_bytes(rng, 20) if r < 0.4 else (random_utf8_path(rng, rng.random() < 0.5) if r < 0.8 else random_win_path(rng))
+        cases.append(case('c19', s))
+    return cases, dist
+
+
+def gen_c20(tier, rng):
+    cases = mixed_cases(tier, rng, scale=0.2)
+    cases += refamily(cases[::7], rng, 'utf8') + refamily(cases[::11], rng, 'typed')
+    dist = {'ops': {}}
+    for c in cases:
+        hist(dist['ops'], c.split('\t')[0])
+    return cases, dist
+
+
+
+GEN_NOTE = ('bounded-exhaustive strings over the bytes the parsers branch on (Unix {/ . a b NUL 0xFF}, Windows {\\ / . : ? a C} '
+            'and 33 prefix seeds x suffixes over {\\ / . a}), structured random paths, a malformed stream, and UTF-8 inputs with 2-, 3- '
+            'and 4-byte characters; the byte family always, the UTF-8 / runtime-typed families on a share of the cases')
+
+def P(gen, level_text, level_note, rule=None, **kw):
+    d = {'gen': gen, 'level': 'proof', 'level_text': level_text, 'level_note': level_note,
+         'rule': (rule or GEN_NOTE) + '; non-trivial = the first argument has at least two non-empty segments; distinct by case line',
+         'exhaustive_note': 'the bounded-exhaustive streams are complete for their stated alphabets and lengths; the input space itself is infinite (exhaustive=false)'}
+    d.update(kw)
+    return d
+
+NOTE_CORR = ('Trusted: Coq kernel; extraction (ExtrOcamlBasic); driver/harness glue; the correspondence between the hand-written model and the '
+             'code is differential testing on the explored cases (bounded-exhaustive + random), not a proof about the Rust text.')
+
 PROPS = {
     'C01': {
         'gen': gen_c01,
@@ -109,4 +626,23 @@ PROPS = {
         'level_note': 'Trusted: Coq kernel; extraction (ExtrOcamlBasic); driver/harness glue; the correspondence is sampled (bounded-exhaustive + random), so agreement of model and code, and of ucomps and std, is established on the explored cases only. std::path is not transcribed into Coq yet: ucomps is its specification.',
         'design_ref': 'DESIGN.md 5/C01',
     },
+    'C02': P(gen_c02, 'Windows decomposition and prefix/root queries: model of the prefix grammar and parser (Win.v) tied to the code on every explored case; theorems in Props/C02.v.', NOTE_CORR),
+    'C03': P(gen_c03, 'Double-ended coherence: interleaving theorem over the generic core parser (CoreSched.sched_spec) instantiated for Unix and for the Windows body; offsets/conservation checked by correspondence.', NOTE_CORR),
+    'C04': P(gen_pairs('c04'), 'Checked join: decision procedure (scan) modelled and tied to the code for byte, UTF-8 and typed families; theorems in Props/C04.v.', NOTE_CORR),
+    'C05': P(gen_pairs('c05'), 'Equality / ordering / hashing coherence: models of eq, cmp and of the hasher call sequence tied to the code; theorems in Props/C05.v.', NOTE_CORR),
+    'C06': P(gen_c06, 'Unix queries against a Gallina transcription of std::path (StdUnix.v), itself diffed against the real std::path on every case.', NOTE_CORR),
+    'C07': P(gen_c07, 'Unix buffer histories against the std::path::PathBuf transcription and the real PathBuf.', NOTE_CORR),
+    'C08': P(gen_c08, 'Windows push/join rule table: model of WindowsEncoding::push tied to the code on pairs and push sequences.', NOTE_CORR),
+    'C09': P(gen_unary('c09'), 'parent / ancestors / pop: proved from the back-step lemma of the core parser; tied to the code for all families.', NOTE_CORR),
+    'C10': P(gen_pairs('c10'), 'starts_with / ends_with / strip_prefix and join consistency: model of iter_after tied to the code.', NOTE_CORR),
+    'C11': P(gen_unary('c11'), 'normalize: model of the fold and re-push tied to the code; idempotence and structure observed on every case.', NOTE_CORR),
+    'C12': P(gen_pairs('c12', second='names'), 'file_name / file_stem / extension / with_file_name: model tied to the code; decomposition theorems in Props/C12.v.', NOTE_CORR),
+    'C13': P(gen_c13, 'set_extension (repaired by a fix: commit): model tied to the code and to std::path::PathBuf::set_extension.', NOTE_CORR),
+    'C14': P(gen_c14, 'UTF-8 families answered by the byte model on valid UTF-8 inputs; every &str re-validated in the harness; conversions succeed exactly on valid UTF-8 (utf8_valid defined in Coq).', NOTE_CORR),
+    'C15': P(gen_c15, 'Runtime-typed and platform families answered by the concrete model; variant preserved; derive rule modelled.', NOTE_CORR),
+    'C16': P(gen_unary('c16'), 'Encoding conversion: model of with_encoding(_checked) tied to the code in both directions and for UTF-8/typed forms.', NOTE_CORR),
+    'C17': P(gen_c17, 'Validity predicate vs the forbidden-byte tables (regenerated from the source), all 256 byte values in each position.', NOTE_CORR),
+    'C18': P(gen_c18, 'Totality: fuel-sufficiency / strict-progress lemmas of the model loops; every operation run under catch_unwind and a watchdog on long inputs.', NOTE_CORR, impl_only_gen=gen_c18_impl_only, debug_build=True),
+    'C19': P(gen_c19, 'Lossless construction/conversion: to_str / lossy / Display against utf8_valid and lossy defined in Coq; every conversion chain checked in the harness.', NOTE_CORR),
+    'C20': P(gen_c20, 'Feature configuration: both builds of the harness (default, --no-default-features) diffed against the single model.', NOTE_CORR, builds=['std', '']),
 }
